@@ -288,6 +288,8 @@ func main() {
 			runStatus(o, strings.Join(t[2:], " "), nil)
 		case "coord":
 			runCoord(o, strings.Join(t[2:], " "))
+		case "disp":
+			runDisp(o, t[2])
 		}
 	}
 	if f.Replay != "" {
@@ -305,6 +307,14 @@ func main() {
 		for _, c := range fixedStatusCasesThorough {
 			runStatus(o, c, r.Fork())
 		}
+	}
+	// the assignment dispatcher under scheduled interleavings of registrations, pushes, Sends and disconnects
+	for _, c := range fixedDispCases {
+		runDisp(o, c)
+	}
+	rd := r.Fork()
+	for i := 0; i < f.N; i++ {
+		genDisp(o, rd)
 	}
 	// restarts of the real coordinator inside status histories
 	for _, c := range fixedCoordCases {
